@@ -21,8 +21,9 @@ package verifharness
 import (
 	"context"
 	"fmt"
+	"strconv"
+	"strings"
 	"sync"
-	"sync/atomic"
 	"testing"
 	"time"
 
@@ -44,20 +45,40 @@ type c13Result struct {
 func c13Run(P, L, D time.Duration, want int, closeAfter time.Duration) c13Result {
 	a := newFakeAPI()
 	a.put("a", "p", nil)
-	var armed int32
-	slow := filter.FN(func(metav1.Object) bool {
-		if D > 0 && atomic.CompareAndSwapInt32(&armed, 1, 0) {
-			time.Sleep(D)
+	// The consumption delay: just before list k returns, a trigger object "t<k>" is published on the
+	// watch; the controller-level filter sleeps D the first time it sees t<k>.  List k's snapshot was
+	// taken before the trigger existed, so an evaluation that starts before list k has returned can
+	// only come from the watch event: the controller loop is then busy until the sleep ends and
+	// cannot consume list k's result earlier.
+	type sleepRec struct{ start, end time.Time }
+	var smu sync.Mutex
+	sleeps := map[int]*sleepRec{}
+	slow := filter.FN(func(o metav1.Object) bool {
+		name := o.GetName()
+		if D > 0 && strings.HasPrefix(name, "t") {
+			if k, err := strconv.Atoi(name[1:]); err == nil {
+				smu.Lock()
+				if sleeps[k] == nil {
+					r := &sleepRec{start: time.Now()}
+					sleeps[k] = r
+					smu.Unlock()
+					time.Sleep(D)
+					smu.Lock()
+					r.end = time.Now()
+				}
+				smu.Unlock()
+			}
 		}
 		return true
 	})
-	var trig int64
 	a.listLatency = func(k int) time.Duration { return L }
 	a.beforeListReturn = func(k int) {
 		if D > 0 && k >= 1 {
-			atomic.StoreInt32(&armed, 1)
-			a.put("a", fmt.Sprintf("t%d", atomic.AddInt64(&trig, 1)%3), nil)
+			a.put("a", fmt.Sprintf("t%d", k), nil)
 			time.Sleep(300 * time.Microsecond) // let the event reach the controller loop first
+			if k > 3 {
+				a.del("a", fmt.Sprintf("t%d", k-3))
+			}
 		}
 	}
 	ctx, cancel := context.WithCancel(context.Background())
@@ -136,8 +157,22 @@ func c13Run(P, L, D time.Duration, want int, closeAfter time.Duration) c13Result
 				res.violation = fmt.Sprintf("period %v, latency %v, delay %v: List call #%d started %v after call #%d returned; expected at least about one period (>= %v)", P, L, D, c.k, gap, prev.k, min)
 				return res
 			}
-			if D > 0 && gap >= time.Duration(0.9*float64(P))+D*9/10 {
+			// the same bound measured from the consumption of the previous result, where the harness
+			// can bound that instant from below: the controller was inside the sleeping filter before
+			// list prev.k returned, so it consumed that result no earlier than the end of the sleep
+			smu.Lock()
+			r := sleeps[prev.k]
+			var rs, re time.Time
+			if r != nil {
+				rs, re = r.start, r.end
+			}
+			smu.Unlock()
+			if r != nil && !re.IsZero() && rs.Before(prev.end) {
 				res.delayHit++
+				if g2 := c.start.Sub(re); g2 < min {
+					res.violation = fmt.Sprintf("period %v, latency %v, consumption delay %v: List call #%d started %v after the result of call #%d could first have been consumed (the controller was busy until then); expected at least about one period (>= %v)", P, L, D, c.k, g2, prev.k, min)
+					return res
+				}
 			}
 		}
 	}
